@@ -222,7 +222,7 @@ struct Env {
       xrt::op_begin(in.op, true);
       guards[in.b] = guards[in.a];
       xrt::op_end();
-      L.guard_set(in.b, guards[in.b].get());
+      L.guard_set(in.b, guards[in.b].get(), true);
       if (guards[in.b].get() != src || guards[in.a].get() != src || guards[in.b].mark() != guards[in.a].mark())
         L.err("C15", "algebra-copy", "copy assignment did not share the object");
       break;
@@ -231,11 +231,12 @@ struct Env {
       if (in.a == in.b)
         break;
       Node* src = guards[in.a].get();
+      const bool src_copy = L.guard_is_copy(in.a);
       L.guard_clear(in.b);
       xrt::op_begin(in.op, true);
       guards[in.b] = std::move(guards[in.a]);
       xrt::op_end();
-      L.guard_set(in.b, guards[in.b].get());
+      L.guard_set(in.b, guards[in.b].get(), src_copy);
       L.guard_set(in.a, guards[in.a].get());
       if (guards[in.b].get() != src || guards[in.a].get() != nullptr || (bool)guards[in.a])
         L.err("C15", "algebra-move", "move assignment did not transfer the object / empty the source");
@@ -246,7 +247,7 @@ struct Env {
       xrt::op_begin(in.op, true);
       {
         GPtr tmp(guards[in.a]);
-        L.guard_set(NG + 1, tmp.get());
+        L.guard_set(NG + 1, tmp.get(), true);
         if (tmp.get() != src)
           L.err("C15", "algebra-copy-ctor", "copy construction did not share the object");
         if (tmp) {
@@ -262,16 +263,17 @@ struct Env {
     }
     case R_MOVE_CTOR: {
       Node* src = guards[in.a].get();
+      const bool src_copy = L.guard_is_copy(in.a);
       xrt::op_begin(in.op, true);
       {
         GPtr tmp(std::move(guards[in.a]));
-        L.guard_set(NG + 1, tmp.get());
+        L.guard_set(NG + 1, tmp.get(), src_copy);
         L.guard_set(in.a, guards[in.a].get());
         if (tmp.get() != src || guards[in.a].get() != nullptr)
           L.err("C15", "algebra-move-ctor", "move construction did not transfer the object / empty the source");
         L.guard_clear(in.a);
         guards[in.a] = std::move(tmp);
-        L.guard_set(in.a, guards[in.a].get());
+        L.guard_set(in.a, guards[in.a].get(), src_copy);
         L.guard_clear(NG + 1);
       }
       xrt::op_end();
@@ -284,11 +286,12 @@ struct Env {
         break;
       Node* x = guards[in.a].get();
       Node* y = guards[in.b].get();
+      const bool xc = L.guard_is_copy(in.a), yc = L.guard_is_copy(in.b);
       xrt::op_begin(in.op, true);
       guards[in.a].swap(guards[in.b]);
       xrt::op_end();
-      L.guard_set(in.a, guards[in.a].get());
-      L.guard_set(in.b, guards[in.b].get());
+      L.guard_set(in.a, guards[in.a].get(), yc);
+      L.guard_set(in.b, guards[in.b].get(), xc);
       if (guards[in.a].get() != y || guards[in.b].get() != x)
         L.err("C15", "algebra-swap", "swap did not exchange the objects");
       break;
